@@ -522,6 +522,11 @@ class C23:
         fsl_mod.Path = FaultyPath
         FaultyPath.plan = w.plan
         viol = res["violations"]
+        # the thread-safe map always runs on the simulated lock: outside thread mode it behaves as an
+        # uncontended lock, and a lock left held by an earlier operation raises instead of hanging
+        saved_lock0 = lru_mod.Lock
+        lru_mod.Lock = SimLock
+        SimLock.sim = None
         try:
             with warnings.catch_warnings(record=True) as wlist:
                 warnings.simplefilter("always")
@@ -533,6 +538,8 @@ class C23:
                 if "never awaited" in str(x.message):
                     bump(st, "warn.never_awaited")
         finally:
+            lru_mod.Lock = saved_lock0
+            SimLock.sim = None
             fsl_mod.Path = saved_path
             FaultyPath.plan = None
             w.fs.close()
